@@ -77,6 +77,7 @@ type Ctx struct {
 	skip       int64
 	caseNo     int64
 	caseLog    *os.File
+	violLog    *os.File // violations are journaled at once so that a later crash of the child does not lose them
 	res        BatchResult
 	nt         map[uint64]struct{}
 	ntFile     string
@@ -179,7 +180,13 @@ func (c *Ctx) Violation(fingerprint, what string, witness any) {
 	if err != nil {
 		w, _ = json.Marshal(fmt.Sprintf("%#v", witness))
 	}
-	c.res.Violations = append(c.res.Violations, Violation{fingerprint, what, w})
+	v := Violation{fingerprint, what, w}
+	c.res.Violations = append(c.res.Violations, v)
+	if c.violLog != nil {
+		if line, err := json.Marshal(v); err == nil {
+			_, _ = c.violLog.Write(append(line, '\n'))
+		}
+	}
 }
 
 // Inconclusive records a case on which no verdict could be made.
@@ -265,6 +272,8 @@ func WorkerMain(args []string) int {
 	c := newCtx(m.ID(), args[1], seed, batch, nbatch)
 	c.skip = skip
 	c.caseLog = cl
+	c.violLog, _ = os.OpenFile(filepath.Join(outdir, fmt.Sprintf("viol.%d.%d.jsonl", batch, skip)),
+		os.O_CREATE|os.O_WRONLY|os.O_APPEND, 0o644)
 	m.Run(c)
 	c.res.Done = true
 	return writeResult(c, outdir, batch, skip)
@@ -468,7 +477,15 @@ func runBatch(m Monitor, exe, tier string, seed int64, b, nb int, outdir string,
 			mu.Unlock()
 			return
 		}
-		// the child died: attribute to the last logged case
+		// the child died: keep the violations it had journaled, then attribute the death to the last logged case
+		if vb, err := os.ReadFile(filepath.Join(outdir, fmt.Sprintf("viol.%d.%d.jsonl", b, skip))); err == nil {
+			for _, ln := range bytes.Split(vb, []byte("\n")) {
+				var v Violation
+				if len(ln) > 0 && json.Unmarshal(ln, &v) == nil {
+					ag.viol = append(ag.viol, v)
+				}
+			}
+		}
 		lastNo, lastDesc := lastCase(filepath.Join(outdir, fmt.Sprintf("cases.%d.log", b)))
 		stderrText, _ := os.ReadFile(errFile)
 		if timedOut {
